@@ -38,7 +38,7 @@ for m in sorted(glob.glob(os.path.join(V, "seeded", "*", "meta.json"))):
     for s in seeds:
         if str(s) in r["seeds"]:
             continue
-        rr = sh("VERIF_SEED=%d G3DVERIF_REPO=%s /venv/bin/python -m g3dverif.run %s --tier quick --no-evidence" % (s, W, cid), cwd=V)
+        rr = sh("G3DVERIF_SHRINK_BUDGET=5 VERIF_SEED=%d G3DVERIF_REPO=%s /venv/bin/python -m g3dverif.run %s --tier quick --no-evidence" % (s, W, cid), cwd=V)
         r["seeds"][str(s)] = rr.returncode
     sh("git -C %s checkout -- .; git -C %s clean -fdq" % (W, W))
     json.dump(res, open(out, "w"), indent=0)
